@@ -186,4 +186,18 @@ PROPS = {
         thorough=dict(budget_s=1500, profiles=[P("C18", 8000), P("C18", 2000, "inplace"), P("C18", 2000, "v4")]),
         reach=["c18_admitted", "c18_rejected", "c18_edits"],
     ),
+    "C19": dict(
+        engine="component",
+        level="exploration",
+        rule="component level: seeded operation sequences (pgregory.net/rapid state machines, <=60 steps each) against ring.Buffer, linkedlist.Buffer, "
+             "elastic.Buffer and elastic.RingBuffer with a plain []byte queue as reference model: Write, Writev, WriteString, WriteByte, fill-exactly, "
+             "Read, ReadByte, Peek(n), PeekWithBytes, Discard(n), Reset, Release/Done, sizes concentrated at 0, 1 and the capacity / static-limit "
+             "thresholds, every byte distinct, a second buffer sharing the slice and ring pools; system level: the C02 workload with slow readers, "
+             "8-512 byte send buffers and 16-257 byte read buffers (real partial writes and leftovers through the simulated kernel); non-trivial = "
+             "wrap-around, growth, spill to the list or pool recycling happened (component) / blocked and short writes occurred (system); distinct = "
+             "distinct operation traces (component) + distinct proxy-visible event-sequence hashes (system)",
+        quick=dict(budget_s=90, profiles=[P("C19", 150)], component=dict(checks=3000, shards=4)),
+        thorough=dict(budget_s=1500, profiles=[P("C19", 10000)], component=dict(checks=100000, shards=8, steps=120)),
+        reach=["EAGAINWrite", "ShortWrites", "ShortReads"],
+    ),
 }
